@@ -366,6 +366,8 @@ def c09(res, st, std_coq):
         cases.append((rnd.choice(entries), gens.random_bytes(rnd, rnd.randrange(0, 20))))
     cases += gens.systematic_cases(valid_only=False)
     cases += gens.injection_cases(rnd, q)
+    cases += gens.control_byte_insertions(gens.systematic_cases(valid_only=False)[:: 6 if q else 1] + [(e, x.encode()) for (e, x) in gens.INJECT_BASE])
+    cases += gens.control_byte_insertions([(e, s) for (e, s) in gens.cross_piece_context_lists()[:: 9 if q else 2]], 2)
     cases += [(e, s) for s in gens.regression("C09") for e in ("ParseStatement", "ParseExpr", "ParseDDL")]
     # many recovered failures in ONE input: every Bad node needs its error, however many there are
     for n in ((3, 101, 150) if q else (3, 101, 150, 1000)):
@@ -484,7 +486,7 @@ def sampled(res, st, std_coq, extra_vo=()):
     elif pid in ("C05",):
         cases = valid_cases(rnd, q, 4000 if q else 80000) + error_cases(rnd, q)[:3000 if q else 60000]
     elif pid == "C11":
-        cases = list_cases(rnd, q)
+        cases = list_cases(rnd, q) + gens.cross_piece_context_lists()
     elif pid == "C08":
         cases = gens.parser_cases(rnd, 0, 0, 0, valid_only=True) + gens.sentence_cases(rnd, 6000 if q else 120000)
         sysc = gens.systematic_cases()
